@@ -389,7 +389,7 @@ class Check:
                 last_case = m.group(1)
             tail = (err or "")[-1500:]
             sig = ""
-            m2 = re.search(r"(ERROR: AddressSanitizer: [\w-]+|runtime error: [^\n]{0,120}|Assertion `[^']*' failed|DEADLOCK[^\n]*|LIVELOCK[^\n]*|WARNING: ThreadSanitizer: [\w -]+)", err or "")
+            m2 = re.search(r"(ERROR: AddressSanitizer: [\w-]+|runtime error: [^\n]{0,120}|Assertion `[^']*' failed|DEADLOCK[^\n]*|LIVELOCK[^\n]*|WATCHDOG[^\n]*|WARNING: ThreadSanitizer: [\w -]+)", err or "")
             if m2:
                 sig = m2.group(1)
             site = ""
